@@ -46,6 +46,15 @@ pub fn front_contract(src: &[u8], expect: &str, min_line: u32, classify_inproc: 
         }
     }
     if o.crashed() {
+        // A mutated program that the front end accepts may recurse without
+        // bound (`fib(n - - 1)`): what it does at run time is not the front
+        // end's doing. A crash counts here only if the in-process lexer and
+        // parser do not come back with "accepted" either.
+        if std::str::from_utf8(src).is_ok() && worker_available() && contains(&o.err, b"overflowed its stack") {
+            if let Ok(FrontRes::Accepted) = inproc_front(src) {
+                return Ok("accepted, exhausts the stack at run time (not judged)");
+            }
+        }
         return Err(format!("crash: {}", o.brief()));
     }
     let utf8 = std::str::from_utf8(src).is_ok();
